@@ -1053,4 +1053,131 @@ theorem insert_refines_reference (ts : TableSchema) (given : OvsRow) (m : Model)
       | some cs => exact absurd ((List.mem_eraseDups).mpr (mem_keys_of_get? hcs)) hc
     simp [this]
 
+theorem rowOp_fold_keys (ts : TableSchema) (table : String) (rop : RowOperation) (rows : List (UUID × Row))
+    (acc step : List ((String × UUID) × ModelUpdate))
+    (h : rows.foldlM (fun (acc : List ((String × UUID) × ModelUpdate)) p =>
+          match addOperation ts {} p.1 (some ⟨p.1, p.2⟩) rop with
+          | .ok mu => if mu.isEmpty then pure acc else pure (acc ++ [((table, p.1), mu)])
+          | .error e => (.error (errStr e) : Except String _)) acc = .ok step) :
+    ∀ e ∈ step, e ∈ acc ∨ (e.1.1 = table ∧ ∃ row, (e.1.2, row) ∈ rows ∧
+      addOperation ts {} e.1.2 (some ⟨e.1.2, row⟩) rop = .ok e.2) := by
+  induction rows generalizing acc with
+  | nil => simp [pure, Except.pure] at h; subst h; intro e he; exact Or.inl he
+  | cons p t ih =>
+    simp only [List.foldlM_cons, bind, Except.bind] at h
+    split at h
+    · cases h
+    · rename_i acc1 h1
+      intro e he
+      rcases ih acc1 h e he with hin | ⟨ht, row, hrow, hop⟩
+      · split at h1
+        · rename_i mu hmu
+          split at h1
+          · simp only [pure, Except.pure, Except.ok.injEq] at h1; subst h1; exact Or.inl hin
+          · simp only [pure, Except.pure, Except.ok.injEq] at h1
+            subst h1
+            rcases List.mem_append.mp hin with hin | hin
+            · exact Or.inl hin
+            · simp only [List.mem_singleton] at hin
+              subst hin
+              exact Or.inr ⟨rfl, p.2, by simp, hmu⟩
+        · cases h1
+      · exact Or.inr ⟨ht, row, List.mem_cons_of_mem _ hrow, hop⟩
+
+/-- **C03 (18)** `update`, `mutate` and `delete` work on exactly the overlay rows of (12):
+    the count they report is the number of those rows, every update they produce is
+    the update of one of those rows computed from that row alone, and a `delete` marks
+    exactly those rows as deleted for the rest of the transaction. -/
+theorem rowOp_exact (σ : DbModel) (db : Database) (tx tx1 : Txn) (op : Operation) (rop : RowOperation) (isDelete : Bool)
+    (ts : TableSchema) (tc dc : Cache)
+    (hts : σ.table op.table = some ts) (htc : get? tx.cache op.table = some tc) (hdc : get? db op.table = some dc)
+    (okT : CacheOK tc) (okD : CacheOK dc)
+    (r : OpResult) (step : List ((String × UUID) × ModelUpdate))
+    (h : rowOp σ db tx op rop isDelete = .ok (r, tx1, step)) :
+    ∃ (conds : List Cond) (rows : List (UUID × Row)), nativeConds ts op.where_ = .ok conds ∧
+      (∀ u row, (u, row) ∈ rows ↔
+        (u ∉ tx.deleted ∧ ((get? tc.rows u = some row ∧ AllTrue conds u row) ∨
+          (get? tc.rows u = none ∧ get? dc.rows u = some row ∧ AllTrue conds u row)))) ∧
+      r.count = rows.length ∧
+      (isDelete = true → tx1.deleted = tx.deleted ++ rows.map (·.1)) ∧
+      (isDelete = false → tx1.deleted = tx.deleted) ∧
+      (∀ e ∈ step, e.1.1 = op.table ∧ ∃ row, (e.1.2, row) ∈ rows ∧
+        addOperation ts {} e.1.2 (some ⟨e.1.2, row⟩) rop = .ok e.2) := by
+  unfold rowOp at h
+  simp only [hts] at h
+  split at h
+  · cases h
+  · rename_i rows tx2 hov
+    split at h
+    · cases h
+    · rename_i step' hstep
+      simp only [Except.ok.injEq, Prod.mk.injEq] at h
+      obtain ⟨hr, htx, hs⟩ := h
+      subst hs
+      obtain ⟨conds, hn, hmem⟩ := overlay_exact σ db tx op.table op.where_ ts tc dc hts htc hdc okT okD (zeroOK_zeroRowOf ts) rows tx2 hov
+      have hdel2 : tx2.deleted = tx.deleted := by
+        unfold overlayRows at hov
+        simp only [hts, htc, hdc, bind, Except.bind] at hov
+        split at hov
+        · cases hov
+        · split at hov
+          · cases hov
+          · split at hov
+            · cases hov
+            · simp only [pure, Except.pure, Except.ok.injEq, Prod.mk.injEq] at hov
+              rw [← hov.2]
+      refine ⟨conds, rows, hn, hmem, by rw [← hr], ?_, ?_, ?_⟩
+      · intro hd; rw [← htx]; simp [hd, hdel2]
+      · intro hd; rw [← htx]; simp [hd, hdel2]
+      · intro e he
+        rcases rowOp_fold_keys ts op.table rop rows [] step' hstep e he with hin | hres
+        · cases hin
+        · exact hres
+
+
+/-- the update an `update` operation records for one row carries, as its new model, the row the
+    reference interpreter computes (and keeps the uuid) -/
+theorem update_entry_refines (ts : TableSchema) (u : UUID) (row : Row) (given : OvsRow) (mu : ModelUpdate)
+    (hu : "_uuid" ∉ keys given) (hval : ValTyped ts given) (hrt : RowTyped ts row)
+    (h : addOperation ts {} u (some ⟨u, row⟩) (.update given) = .ok mu) (hne : mu.isEmpty = false) :
+    ∃ new, mu.new = some new ∧ new.uuid = u ∧ mu.old = some ⟨u, row⟩ ∧
+      ∃ r', Rfc.updateRow ts row given = some r' ∧ ∀ k, get? new.row k = get? r' k := by
+  unfold addOperation at h
+  simp only [bind, Except.bind] at h
+  split at h
+  · cases h
+  · rename_i oldRow _
+    split at h
+    · cases h
+    · rename_i res hres
+      obtain ⟨chg, new, delta⟩ := res
+      simp only at h
+      split at h
+      · simp only [pure, Except.pure, Except.ok.injEq] at h
+        subst h
+        simp [ModelUpdate.isEmpty] at hne
+      · split at h
+        · cases h
+        · rename_i newR _
+          unfold addUpdate mergeUpdate at h
+          simp only [ModelUpdate.isEmpty] at h
+          simp [mergeRowUpdate] at h
+          subst h
+          obtain ⟨r', hr', hrow, hid⟩ := update_refines_reference ts ⟨u, row⟩ given chg new delta hu hval hrt hres
+          exact ⟨new, rfl, hid, rfl, r', hr', hrow⟩
+
+/-- the update a `delete` operation records for one row removes that row -/
+theorem delete_entry (ts : TableSchema) (u : UUID) (row : Row) (mu : ModelUpdate)
+    (h : addOperation ts {} u (some ⟨u, row⟩) .delete = .ok mu) :
+    mu.new = none ∧ mu.old = some ⟨u, row⟩ := by
+  unfold addOperation at h
+  simp only [bind, Except.bind] at h
+  split at h
+  · cases h
+  · unfold addUpdate mergeUpdate at h
+    simp only [ModelUpdate.isEmpty] at h
+    simp [mergeRowUpdate] at h
+    subst h
+    exact ⟨rfl, rfl⟩
+
 end Ovsdb.C03
